@@ -3,6 +3,7 @@ import LeptosModel.Proofs.ServerFnErr
 import LeptosModel.Proofs.ServerFnB64
 import LeptosModel.Proofs.ServerFnForm
 import LeptosModel.Proofs.ServerFnUtf8
+import LeptosModel.Proofs.ServerFnStream
 /-!
 # C13 — calling a server function remotely equals calling it directly
 
@@ -260,9 +261,26 @@ theorem C13_pipeline_refines_direct_partial {E α β : Type} (ie : InEnc) (ec : 
     obtain ⟨b, henc', hdec'⟩ := hco o
     simp [henc', clientDecode, isErrorStatus, hdec']
 
-/-- **Remote = direct, full statement** over the input encodings the library provides -/
-def C13_pipeline_refines_direct_full : Prop :=
-  ∀ ie ∈ inputEncodings, ∀ (E α β : Type) (ec : ErrCodec E) (ci : Codec α) (co : Codec β)
+theorem C13_table_methods_agree : ∀ ie ∈ inputEncodings, ie.reqMethod = ie.method := by decide
+
+/-- every row of the (repaired) table: client and server agree on where the arguments travel -/
+theorem C13_table_slots_agree : ∀ ie ∈ inputEncodings, ie.slotsAgree = true := by decide
+
+/-- **Remote = direct** (full): for *every* input encoding the library provides, all lawful argument /
+result codecs, every lawful error codec, every function body and every argument, the call through client,
+transport and server returns exactly what the body returns — `Ok` and `Err` alike. -/
+theorem C13_pipeline_refines_direct {E α β : Type} (ie : InEnc) (hie : ie ∈ inputEncodings)
+    (ec : ErrCodec E) (ci : Codec α) (co : Codec β) (body : α → Except E β) (a : α)
+    (hci : ci.Lawful) (hco : co.Lawful) (hec : ec.Lawful) (ht : TextSafe ie ci) :
+    remoteCall ie ec ci co body a = body a :=
+  C13_pipeline_refines_direct_partial ie ec ci co body a (C13_table_slots_agree ie hie)
+    (C13_table_methods_agree ie hie) hci hco hec ht
+
+/-! ### regression: the table before `fix: PatchUrl and PutUrl read their arguments from the request body` -/
+
+/-- the same statement over the old table -/
+def C13_pipeline_refines_direct_old : Prop :=
+  ∀ ie ∈ inputEncodingsOld, ∀ (E α β : Type) (ec : ErrCodec E) (ci : Codec α) (co : Codec β)
     (body : α → Except E β) (a : α),
     ci.Lawful → co.Lawful → ec.Lawful → TextSafe ie ci → remoteCall ie ec ci co body a = body a
 
@@ -272,32 +290,25 @@ theorem idCodec_lawful : idCodec.Lawful := fun a => ⟨a, rfl, rfl⟩
 
 def trivialErr : ErrCodec Bytes := ⟨id, id, fun _ m => m.map Char.toNat⟩
 
-/-- witness (F-C13-1): `PatchUrl` — the client writes the arguments into the body, the server reads the
-query: the body is run on the decoding of the empty string -/
+/-- F-C13-1 (repaired): with the old `PatchUrl` row — arguments written to the body, read from the query —
+the body ran on the decoding of the empty string; with the repaired row the same call returns the argument -/
 theorem C13_patchurl_witness :
-    ∃ ie ∈ inputEncodings, ie.name = "PatchUrl" ∧
-      remoteCall ie trivialErr idCodec idCodec (fun x => .ok x) [1] = .ok [] := by
-  refine ⟨⟨"PatchUrl", .patch, .patch, .bodyText, .query, argsKind⟩, by simp [inputEncodings], rfl, by decide⟩
+    (∃ ie ∈ inputEncodingsOld, ie.name = "PatchUrl" ∧
+      remoteCall ie trivialErr idCodec idCodec (fun x => .ok x) [1] = .ok []) ∧
+    (∃ ie ∈ inputEncodings, ie.name = "PatchUrl" ∧
+      remoteCall ie trivialErr idCodec idCodec (fun x => .ok x) [1] = .ok [1]) := by
+  refine ⟨⟨⟨"PatchUrl", .patch, .patch, .bodyText, .query, argsKind⟩, by simp [inputEncodingsOld], rfl, by decide⟩,
+    ⟨⟨"PatchUrl", .patch, .patch, .bodyText, .bodyText, argsKind⟩, by simp [inputEncodings], rfl, by decide⟩⟩
 
-theorem C13_pipeline_refines_direct_full_false : ¬ C13_pipeline_refines_direct_full := by
+theorem C13_pipeline_refines_direct_old_false : ¬ C13_pipeline_refines_direct_old := by
   intro h
-  have := h ⟨"PatchUrl", .patch, .patch, .bodyText, .query, argsKind⟩ (by simp [inputEncodings])
+  have := h ⟨"PatchUrl", .patch, .patch, .bodyText, .query, argsKind⟩ (by simp [inputEncodingsOld])
     Bytes Bytes Bytes trivialErr idCodec idCodec (fun x => .ok x) [1]
     idCodec_lawful idCodec_lawful (fun _ => rfl) (fun h => by simp at h)
   revert this; decide
 
-/-- the encodings of the table outside the known-finding class, and the class itself -/
-theorem C13_table_methods_agree : ∀ ie ∈ inputEncodings, ie.reqMethod = ie.method := by decide
-
-theorem C13_table_slot_mismatch :
-    (inputEncodings.filter fun ie => !ie.slotsAgree).map (·.name) = ["PatchUrl", "PutUrl"] := by decide
-
-/-- **Remote = direct** for every table row with agreeing halves (all but `PatchUrl`, `PutUrl`) -/
-theorem C13_pipeline_refines_direct {E α β : Type} (ie : InEnc) (hie : ie ∈ inputEncodings)
-    (hs : ie.slotsAgree = true) (ec : ErrCodec E) (ci : Codec α) (co : Codec β) (body : α → Except E β) (a : α)
-    (hci : ci.Lawful) (hco : co.Lawful) (hec : ec.Lawful) (ht : TextSafe ie ci) :
-    remoteCall ie ec ci co body a = body a :=
-  C13_pipeline_refines_direct_partial ie ec ci co body a hs (C13_table_methods_agree ie hie) hci hco hec ht
+theorem C13_table_slot_mismatch_old :
+    (inputEncodingsOld.filter fun ie => !ie.slotsAgree).map (·.name) = ["PatchUrl", "PutUrl"] := by decide
 
 /-- **Status rule**: an error status is decoded with the error codec and nothing else, any other status
 with the output codec and nothing else. -/
@@ -386,85 +397,43 @@ theorem rechunkGo_flatten (n : Nat) : ∀ (rest : Bytes) (room : Nat) (cur : Byt
 theorem C13_rechunk_flatten (n : Nat) (body : Bytes) : (rechunk n body).flatten = body := by
   simp [rechunk, rechunkGo_flatten]
 
-theorem rechunkGo_mem (n : Nat) : ∀ (rest : Bytes) (room : Nat) (cur : Bytes) (c : Bytes),
-    c ∈ rechunkGo n room cur rest → ∀ x ∈ c, x ∈ cur ∨ x ∈ rest := by
-  intro rest
-  induction rest with
-  | nil =>
-    intro room cur c hc x hx
-    cases room <;> (simp only [rechunkGo] at hc; split at hc <;> simp_all)
-  | cons b bs ih =>
-    intro room cur c hc x hx
-    cases room with
-    | zero =>
-      simp only [rechunkGo, List.mem_cons] at hc
-      rcases hc with h | h
-      · subst h; left; simpa using hx
-      · have := ih _ _ _ h x hx; simp at this; right; simp [this]
-    | succ r =>
-      simp only [rechunkGo] at hc
-      have := ih _ _ _ hc x hx
-      simp only [List.mem_cons] at this ⊢
-      rcases this with (h | h) | h
-      · right; left; exact h
-      · left; exact h
-      · right; right; exact h
+/-- **Text stream** (full): whatever text is sent and however the transport cuts its bytes into chunks —
+in the middle of scalars, into empty chunks, one byte at a time — `decode_text_chunks` hands over `Ok` items
+only, and they concatenate to exactly the text that was sent. -/
+theorem C13_text_stream (s : Str) (chunks : List Bytes) (h : chunks.flatten = utf8Encode s) :
+    ∃ payloads : List Bytes, textDecodeItems chunks = payloads.map .ok ∧ payloads.flatten = utf8Encode s := by
+  obtain ⟨ps, h1, h2⟩ := textDecodeGo_ok chunks [] s (by simpa using h)
+  exact ⟨ps, h1, by simpa [h] using h2⟩
 
-theorem utf8ErrGo_ascii (s : Bytes) (h : ∀ x ∈ s, x < 128) : ∀ i, utf8ErrGo 0 i s = none := by
-  induction s with
-  | nil => intro i; simp [utf8ErrGo]
-  | cons b bs ih =>
-    intro i
-    have hb : b < 128 := h b (by simp)
-    simp [utf8ErrGo, next1 b hb, ih (fun x hx => h x (by simp [hx]))]
+/-- in particular through the generic back end, which cuts the body every 16 bytes -/
+theorem C13_text_stream_generic (s : Str) :
+    ∃ payloads : List Bytes, textDecodeItems (rechunk 16 (utf8Encode s)) = payloads.map .ok ∧
+      payloads.flatten = utf8Encode s :=
+  C13_text_stream s _ (C13_rechunk_flatten 16 _)
 
-/-- **Text stream, full statement**: well-formed text sent as a `TextStream` arrives without error items -/
-def C13_text_stream_full : Prop :=
+/-! ### regression: before `fix: StreamingText completes a character split across transport chunks` -/
+
+/-- the old statement: well-formed text arrives without error items -/
+def C13_text_stream_old : Prop :=
   ∀ body : Bytes, utf8ErrGo 0 0 body = none →
-    ∀ it ∈ textStreamItems (rechunk 16 body), ∃ c, it = .ok c
+    ∀ it ∈ textStreamItemsOld (rechunk 16 body), ∃ c, it = .ok c
 
-/-- witness (F-C13-2): fifteen ASCII bytes and `é`: the two bytes of `é` land in different 16-byte chunks -/
+/-- F-C13-2 (repaired): fifteen ASCII bytes and `é` — the two bytes of `é` land in different 16-byte chunks;
+the old per-chunk decoder turned both chunks into errors, the repaired one returns the text -/
 theorem C13_text_stream_witness :
     utf8ErrGo 0 0 ((List.replicate 15 97) ++ [0xC3, 0xA9]) = none ∧
-    textStreamItems (rechunk 16 ((List.replicate 15 97) ++ [0xC3, 0xA9])) =
-      [.error ⟨deserializationKind, utf8ErrMsg (15, none)⟩, .error ⟨deserializationKind, utf8ErrMsg (0, some 1)⟩] := by
+    textStreamItemsOld (rechunk 16 ((List.replicate 15 97) ++ [0xC3, 0xA9])) =
+      [.error ⟨deserializationKind, utf8ErrMsg (15, none)⟩, .error ⟨deserializationKind, utf8ErrMsg (0, some 1)⟩] ∧
+    textDecodeItems (rechunk 16 ((List.replicate 15 97) ++ [0xC3, 0xA9])) =
+      [.ok (List.replicate 15 97), .ok [0xC3, 0xA9]] := by
   decide
 
-theorem C13_text_stream_full_false : ¬ C13_text_stream_full := by
+theorem C13_text_stream_old_false : ¬ C13_text_stream_old := by
   intro h
   have h1 := h ((List.replicate 15 97) ++ [0xC3, 0xA9]) C13_text_stream_witness.1
-  rw [C13_text_stream_witness.2] at h1
+  rw [C13_text_stream_witness.2.1] at h1
   obtain ⟨c, hc⟩ := h1 (.error ⟨deserializationKind, utf8ErrMsg (15, none)⟩) List.mem_cons_self
   cases hc
-
-/-- **Text stream, partial**: when no scalar straddles a 16-byte boundary every item is `Ok` and the items
-concatenate to the text that was sent -/
-theorem C13_text_stream_partial (body : Bytes) (h : splitsScalar body = false) :
-    (∀ it ∈ textStreamItems (rechunk 16 body), ∃ c, it = .ok c ∧ c ∈ rechunk 16 body) ∧
-    (rechunk 16 body).flatten = body := by
-  refine ⟨?_, C13_rechunk_flatten 16 body⟩
-  intro it hit
-  simp only [textStreamItems, List.mem_map] at hit
-  obtain ⟨c, hc, hcit⟩ := hit
-  have : utf8ErrGo 0 0 c = none := by
-    simp only [splitsScalar, List.any_eq_false] at h
-    have := h c hc
-    cases hx : utf8ErrGo 0 0 c with
-    | none => rfl
-    | some e => simp [hx] at this
-  simp only [this] at hcit
-  exact ⟨c, hcit.symm, hc⟩
-
-/-- ASCII text is never split -/
-theorem C13_text_stream_ascii (body : Bytes) (h : ∀ x ∈ body, x < 128) : splitsScalar body = false := by
-  simp only [splitsScalar, List.any_eq_false]
-  intro c hc
-  have hall : ∀ x ∈ c, x < 128 := by
-    intro x hx
-    have := rechunkGo_mem 16 body 16 [] c hc x hx
-    simp at this
-    exact h x this
-  simp [utf8ErrGo_ascii c hall 0]
 
 /-! ## non-vacuity -/
 
@@ -504,6 +473,13 @@ example : remoteCall ⟨"GetUrl", .get, .get, .query, .query, argsKind⟩ (sfeCo
     (fun x => if x = [7] then .error ⟨"Args".toList, "a|b".toList⟩ else .ok (x ++ x)) [7] =
     .error ⟨"Args".toList, "a|b".toList⟩ := by decide
 
-example : splitsScalar ([0xC3, 0xA9] ++ List.replicate 14 97 ++ [0xC3, 0xA9]) = false := by decide
+/-- a text cut one byte at a time, with an empty chunk in between -/
+example : textDecodeItems [[97], [0xF0], [0x9F], [], [0x98], [0x80, 0xC3], [0xA9]] =
+    [.ok [97], .ok [0xF0, 0x9F, 0x98, 0x80], .ok [0xC3, 0xA9]] := by decide
+
+/-- really ill-formed bytes and a truncated end are still reported -/
+example : textDecodeItems [[97, 0xFF], [0xC3]] =
+    [.error ⟨deserializationKind, utf8ErrMsg (1, some 1)⟩, .error ⟨deserializationKind, utf8ErrMsg (0, none)⟩] := by
+  decide
 
 end Leptos.ServerFn
